@@ -62,36 +62,43 @@ Proof.
   unfold proj. cbn [filter vfst]. rewrite !E by congruence. reflexivity.
 Qed.
 
-(* REFUTED for `Stream::join` / `cross_product` with a Bounded right side of ordering NoOrder:
-   the result is typed with the LEFT ordering (`B2::PreserveOrderIfBounded<O>` ignores the right
-   ordering O2), but the matches of one left item are emitted in the arrival order of the right
-   side.  [bord] transcribes the Rust typing, [brun] the emitted join_multiset_half.  The witness
-   is replayed on the real code by the t_join_half_unord corpus flow (known finding). *)
-Theorem C29_join_bounded_unordered_side_refuted :
-  exists (l r r' : list val),
-    Permutation r r' /\
-    bord t_join_half_unord = true /\
-    concat (brun t_join_half_unord [mkenv [l; r]]) <> concat (brun t_join_half_unord [mkenv [l; r']]).
+(* FIXED in /repo by 62bf4bf2be4.  Former finding (key join/bounded-right-noorder/typed-total-order):
+   `Stream::join` / `cross_product` with a Bounded right side of ordering NoOrder typed the result
+   with the LEFT ordering (`B2::PreserveOrderIfBounded<O>` ignored the right ordering O2), although
+   join_multiset_half emits the matches of one left item in the arrival order of the right side.
+   Former theorem C29_join_bounded_unordered_side_refuted, witness
+     l = [(1,0)], r = [(1,5);(1,6)], r' = [(1,6);(1,5)]  (Permutation r r'), typed TotalOrder, and
+     brun t_join_half_unord [l; r] = [[(1,(0,5)); (1,(0,6))]] <> [[(1,(0,6)); (1,(0,5))]] = brun .. [l; r'].
+   The witness is kept as corpus/C29/join_half_unord.json; with the fixed typing the flow is typed
+   NoOrder and the two runs are equal as multisets (Example below).  The former typing is kept as
+   [bord_before_fix] only to state what changed. *)
+Example C29_former_witness_now_unordered :
+  let l := [VP (VN 1) (VN 0)] in
+  let r := [VP (VN 1) (VN 5); VP (VN 1) (VN 6)] in
+  let r' := [VP (VN 1) (VN 6); VP (VN 1) (VN 5)] in
+  bord_before_fix t_join_half_unord = true /\ bord t_join_half_unord = false /\
+  concat (brun t_join_half_unord [mkenv [l; r]]) <> concat (brun t_join_half_unord [mkenv [l; r']]) /\
+  Permutation (concat (brun t_join_half_unord [mkenv [l; r]])) (concat (brun t_join_half_unord [mkenv [l; r']])).
 Proof.
-  exists [VP (VN 1) (VN 0)], [VP (VN 1) (VN 5); VP (VN 1) (VN 6)], [VP (VN 1) (VN 6); VP (VN 1) (VN 5)].
-  split; [apply perm_swap|]. split; [reflexivity|]. vm_compute. discriminate.
+  repeat split; try reflexivity.
+  - vm_compute. discriminate.
+  - vm_compute. apply perm_swap.
 Qed.
-Print Assumptions C29_join_bounded_unordered_side_refuted.
 
-(* REPAIRED typing ([bord_fix]: a join / cross product is ordered only if both sides are): every
+(* MAIN statement for tick programs with NoOrder-cast streams ([bord]: a join / cross product is
+   ordered only if both sides are -- the typing since the fix): every
    tick program whose order-sensitive operators get ordered inputs ([bwf], what the IsOrdered /
    commutativity bounds of the API demand) is deterministic up to its type under ANY two arrival
    orders of its NoOrder-cast streams: equal sequences where typed TotalOrder, equal multisets
    otherwise, in every tick of every history. *)
 Theorem C29_repaired_typing_oracle_independent : forall n, bwf n ->
   forall sigma sigma', perm_oracle sigma -> perm_oracle sigma' ->
-  forall bs, Forall2 (equiv (bord_fix n)) (bspec_o sigma n bs) (bspec_o sigma' n bs).
+  forall bs, Forall2 (equiv (bord n)) (bspec_o sigma n bs) (bspec_o sigma' n bs).
 Proof. exact bspec_oracle_independent. Qed.
 Print Assumptions C29_repaired_typing_oracle_independent.
 
-(* under the repaired typing the finding's flow is typed NoOrder, and satisfies the hypotheses *)
-Example C29_repaired_typing_on_witness :
-  bord t_join_half_unord = true /\ bord_fix t_join_half_unord = false /\ bwf t_join_half_unord.
+(* the former finding's flow is typed NoOrder and satisfies the hypotheses *)
+Example C29_repaired_typing_on_witness : bord t_join_half_unord = false /\ bwf t_join_half_unord.
 Proof. repeat split. Qed.
 
 Example C29_oracle_rev_is_perm : perm_oracle (@rev val).
